@@ -14,5 +14,5 @@ PY
 rc=$?
 if [ $rc -ne 0 ]; then git checkout -- .; exit $rc; fi
 git --no-pager diff --stat | tail -1
-cd /verif && ./check $ID --tier ${TIER:-quick} 2>&1 | grep -E "VIOLATION|OK property|INCONCLUSIVE|INFRA|^  [a-z]" | head -${LINES_OUT:-4}
+cd /verif && ./check $ID --tier ${TIER:-quick} 2>&1 | grep -E "VIOLATION|OK property|INCONCLUSIVE|INFRA|BUILD FAILED|^  [a-z]" | head -${LINES_OUT:-4}
 git -C /repo checkout -- .
